@@ -472,9 +472,6 @@ fn project(c: &Config) -> Value {
         "default_routes": c.default_host.routes.iter().map(route_json).collect::<Vec<_>>(),
         "hosts": c.hosts.iter().map(|h| json!({"matches": h.matches, "routes": h.routes.iter().map(route_json).collect::<Vec<_>>()})).collect::<Vec<_>>(),
     });
-    if c.default_host.matches != "*" {
-        m["default_host_matches"] = json!(c.default_host.matches); // not a field of the spec: makes the comparison fail
-    }
     m
 }
 
@@ -488,30 +485,50 @@ fn null_cfg() -> Value {
 struct Obs {
     kind: &'static str, // ok | parse-error | tree-error | panic
     cfg: Value,
-    file: String,
-    line: u64,
+    /// the error as the user sees it (Display of the ConfigError / the &str of from_tree); only two things are ever read
+    /// out of it, whatever its wording: which file it names and which numbers it contains (see names_file / nums)
     msg: String,
+    /// Config.default_host.matches: not part of the property (reported as drift when it is not "*")
+    default_host: String,
+}
+
+fn basename(p: &str) -> &str {
+    p.rsplit('/').next().unwrap_or(p)
+}
+
+/// the error text names this file (by the path it was given, or at least by its file name)
+fn names_file(o: &Obs, path: &str) -> bool {
+    o.msg.contains(path) || o.msg.contains(basename(path))
+}
+
+/// the numbers the error text contains once every file name is taken out: the line it names is one of them
+fn nums(o: &Obs, r: &Rendered) -> Vec<u64> {
+    let mut t = o.msg.clone();
+    let mut paths: Vec<&str> = r.files.iter().map(|f| f.path.as_str()).collect();
+    paths.push(r.bl_path.as_str());
+    for p in &paths { t = t.replace(p, " "); }
+    for p in &paths { t = t.replace(basename(p), " "); }
+    let mut out = vec![];
+    let mut cur = String::new();
+    for c in t.chars().chain(std::iter::once(' ')) {
+        if c.is_ascii_digit() { cur.push(c); } else if !cur.is_empty() { if cur.len() <= 9 { out.push(cur.parse().unwrap()); } cur.clear(); }
+    }
+    out
 }
 
 fn load(text: &str, name: &str) -> Obs {
     let r = catch_unwind(AssertUnwindSafe(|| match parse_conf(text, name) {
-        Err(e) => {
-            let full = e.to_string(); // "Configuration error at {file} line {line}: {message}"
-            let rest = full.strip_prefix("Configuration error at ").unwrap_or(&full).to_string();
-            let (file, after) = match rest.find(" line ") { Some(i) => (rest[..i].to_string(), rest[i + 6..].to_string()), None => (String::new(), rest.clone()) };
-            let (line, msg) = match after.find(": ") { Some(i) => (after[..i].parse::<u64>().unwrap_or(u64::MAX), after[i + 2..].to_string()), None => (u64::MAX, after.clone()) };
-            Obs { kind: "parse-error", cfg: null_cfg(), file, line, msg }
-        }
+        Err(e) => Obs { kind: "parse-error", cfg: null_cfg(), msg: e.to_string(), default_host: String::new() },
         Ok(tree) => match Config::from_tree(tree) {
-            Err(m) => Obs { kind: "tree-error", cfg: null_cfg(), file: String::new(), line: 0, msg: m.to_string() },
-            Ok(c) => Obs { kind: "ok", cfg: project(&c), file: String::new(), line: 0, msg: String::new() },
+            Err(m) => Obs { kind: "tree-error", cfg: null_cfg(), msg: m.to_string(), default_host: String::new() },
+            Ok(c) => Obs { kind: "ok", cfg: project(&c), msg: String::new(), default_host: c.default_host.matches.clone() },
         },
     }));
-    r.unwrap_or_else(|_| Obs { kind: "panic", cfg: null_cfg(), file: String::new(), line: 0, msg: "panic".into() })
+    r.unwrap_or_else(|_| Obs { kind: "panic", cfg: null_cfg(), msg: "panic".into(), default_host: String::new() })
 }
 
 fn obs_json(o: &Obs) -> Value {
-    json!({"kind": o.kind, "cfg": o.cfg, "file": o.file, "line": o.line, "msg": o.msg})
+    json!({"kind": o.kind, "cfg": o.cfg, "msg": o.msg, "default_host": o.default_host})
 }
 
 fn map_strings(v: &Value, from: &str, to: &str) -> Value {
@@ -534,7 +551,7 @@ fn disagree(exp: &Value, obs: &Obs, r: &Rendered, lay: &Layout) -> Option<String
         "ok" => {
             // a quotation mark inside a string / a route pattern: the literal reading or a rejection (Config.tla OddQuotes)
             if exp["lenient"].as_bool().unwrap_or(false) && (obs.kind == "parse-error" || obs.kind == "tree-error") { return None; }
-            if obs.kind != "ok" { return Some(format!("expected the described configuration, got {} ({} line {}: {})", obs.kind, obs.file, obs.line, obs.msg)); }
+            if obs.kind != "ok" { return Some(format!("expected the described configuration, got {} ({})", obs.kind, obs.msg)); }
             let want = map_strings(&map_strings(&exp["cfg"], "~", lay.na), "`", lay.wsx);
             if want != obs.cfg {
                 let (w, g) = (want.as_object().unwrap(), obs.cfg.as_object().unwrap());
@@ -557,13 +574,15 @@ fn disagree(exp: &Value, obs: &Obs, r: &Rendered, lay: &Layout) -> Option<String
             let p: Vec<usize> = loc["p"].as_array().map(|a| a.iter().map(|x| x.as_u64().unwrap_or(0) as usize).collect()).unwrap_or_default();
             let part: &'static str = match loc["part"].as_str().unwrap_or("") { "open" => "open", "close" => "close", _ => "line" };
             let k = (loc["f"].as_u64().unwrap_or(0) as usize, p, part);
-            let (fi, ln) = match r.loc.get(&k) { Some(x) => *x, None => return Some(format!("harness: token {:?} was not rendered", k)) };
-            if obs.file != r.files[fi].path { return Some(format!("error names file {} but the damaged token is in {}", obs.file, r.files[fi].path)); }
+            let (fi, ln) = match r.loc.get(&k) { Some(x) => *x, None => return Some(format!("INTERNAL: token {:?} was not rendered", k)) };
+            if !names_file(obs, &r.files[fi].path) { return Some(format!("error `{}` does not name the file the damaged token is in ({})", obs.msg, r.files[fi].path)); }
             let n = r.files[fi].lines.len() as u64;
             // a missing brace is noticed at the end of the file at the latest: one past the last line, where an included
             // file, as the parser reads it, has up to two more lines (include() appends "\n}")
-            let ok = if rule == "at" { obs.line == ln as u64 } else { obs.line >= ln as u64 && obs.line <= n + 3 };
-            if ok { None } else { Some(format!("error names line {} but the damaged token ({}) is on line {} of {} lines (rule `{}`)", obs.line, exp["why"], ln, n, rule)) }
+            // rule `from` (a brace is missing: which section is the unclosed one, and where, cannot be known): any line of that file
+            let ns = nums(obs, r);
+            let ok = if rule == "at" { ns.contains(&(ln as u64)) } else { ns.iter().any(|x| *x >= 1 && *x <= n + 3) };
+            if ok { None } else { Some(format!("error `{}` does not name the line of the damaged token ({}): line {} of {} lines (rule `{}`)", obs.msg, exp["why"], ln, n, rule)) }
         }
         _ => Some(format!("harness: unknown expectation kind {}", kind)),
     }
@@ -580,6 +599,7 @@ fn run_case(ast: &Ast, lay: &Layout, dir: &str, tag: &str, rng: &mut Rng) -> (Re
 fn replay(dir: &str, nlay: usize) {
     let mut rng = Rng::from_env();
     let (mut cases, mut loads, mut mism) = (0u64, 0u64, 0u64);
+    let (mut internal, mut drift_default_host) = (0u64, 0u64);
     let mut by_kind: HashMap<String, u64> = HashMap::new();
     let mut by_class: HashMap<String, u64> = HashMap::new();
     let mut nontrivial: HashSet<u64> = HashSet::new();
@@ -601,7 +621,9 @@ fn replay(dir: &str, nlay: usize) {
             let tag = format!("c{}l{}", cases, li);
             let (r, o) = run_case(&ast, &lay, dir, &tag, &mut rng);
             loads += 1;
+            if o.kind == "ok" && o.default_host != "*" { drift_default_host += 1; }
             if let Some(what) = disagree(exp, &o, &r, &lay) {
+                if what.starts_with("INTERNAL") { internal += 1; continue; }
                 mism += 1;
                 if first.len() < 40 {
                     first.push(json!({"case": cases, "layout": li, "what": what, "fault": v["ast"]["fault"], "exp": exp, "obs": obs_json(&o),
@@ -609,11 +631,11 @@ fn replay(dir: &str, nlay: usize) {
                 }
             } else if li == 3 && samples.len() < 6 && (cases % 97 == 1 || (kind == "syntax" && cases % 41 == 0)) {
                 samples.push(json!({"file": r.text(0), "includes": r.files.len() - 1, "expected": kind, "observed": o.kind,
-                                    "line": o.line, "hosts": exp["cfg"]["hosts"].as_array().map(|a| a.len()).unwrap_or(0)}));
+                                    "error": o.msg, "hosts": exp["cfg"]["hosts"].as_array().map(|a| a.len()).unwrap_or(0)}));
             }
         }
     }
-    out_line(&json!({"summary": true, "cases": cases, "loads": loads, "mismatches": mism, "nontrivial": nontrivial.len(),
+    out_line(&json!({"summary": true, "cases": cases, "loads": loads, "mismatches": mism, "internal": internal, "drift_default_host": drift_default_host, "nontrivial": nontrivial.len(),
                      "by_kind": by_kind, "by_class": by_class, "samples": samples, "first": first}));
 }
 
@@ -914,12 +936,12 @@ fn random(dir: &str, n: usize) {
         // where the harness wrote the token it damaged (0 = that part does not exist)
         let at = |part: &'static str| r.loc.get(&(ast.fault.1, ast.fault.2.clone(), part)).cloned();
         let fi = at("open").or(at("line")).or(at("close")).map(|x| x.0).unwrap_or(0);
-        let tok = json!({"same_file": o.kind == "parse-error" && o.file == r.files[fi].path,
+        let tok = json!({"same_file": o.kind == "parse-error" && names_file(&o, &r.files[fi].path),
                          "open": at("open").map(|x| x.1).unwrap_or(0), "close": at("close").map(|x| x.1).unwrap_or(0),
                          "line": at("line").map(|x| x.1).unwrap_or(0), "nlines": r.files[fi].lines.len()});
         let cfg = map_strings(&map_strings(&o.cfg, lay.na, "~"), lay.wsx, "`");
-        let line = if o.line > 1_000_000_000 { 1_000_000_000 } else { o.line };
-        out_line(&json!({"ast": ast_json(&ast), "obs": {"kind": o.kind, "cfg": cfg, "line": line}, "tok": tok,
+        let ns = if o.kind == "parse-error" { nums(&o, &r) } else { vec![] };
+        out_line(&json!({"ast": ast_json(&ast), "obs": {"kind": o.kind, "cfg": cfg, "nums": ns, "default_host": o.default_host}, "tok": tok,
                          "layout": {"na": lay.na, "splits": lay.splits, "permute": lay.permute, "files": r.files.len()}}));
     }
 }
